@@ -482,7 +482,10 @@ def run_kani_ob(build, ob, playback=False):
         cmd += ["--cbmc-args", "--unwindset", us]
     # registry timeouts were measured on an idle machine; scale them for loaded runs
     scale = float(os.environ.get("VERIF_TIMEOUT_SCALE", "2.5"))
-    rc, out, dt, to = run_cmd(cmd, build.repo, build.env(tmpd), ob.get("timeout", 900) * scale * (2 if playback else 1),
+    tmo = ob.get("timeout", 900) * scale
+    if playback:
+        tmo = min(2 * tmo, float(os.environ.get("VERIF_PLAYBACK_TIMEOUT", "3600")))
+    rc, out, dt, to = run_cmd(cmd, build.repo, build.env(tmpd), tmo,
                               max(ob.get("mem_gb", 14), float(os.environ.get("VERIF_MEM_LIMIT_GB", "32"))))
     shutil.rmtree(tmpd, ignore_errors=True)
     res = parse_kani(out)
